@@ -1,20 +1,578 @@
 package main
 
 import (
+	"context"
+	"encoding/json"
 	"fmt"
+	"go/types"
+	"math/rand"
 	"os"
 	"os/exec"
+	"path/filepath"
+	"sort"
 	"strings"
+	"time"
 
 	"dvc/internal/vc"
 )
 
-// replayModel tries to reproduce a solver counterexample on the real code.
-// Drivers are registered per function in replay drivers (see /verif/replay); when none exists
-// the violation is still reported, marked no-failing-input-found.
-func replayModel(verif, repo, prop string, r *vc.ObResult, rp map[string]interface{}) bool {
-	rp["replay"] = "no replay driver registered for " + r.Ob.Fn
+// Replay of counterexamples on the real code.
+//
+// For a function with failed or undecided obligations the driver
+//  1. asks the solver for the entry state of the counterexample (parameters and the memory reachable from them,
+//     slices bounded in length), and, as further candidates, for entry states that merely satisfy the precondition;
+//  2. builds those arguments in a generated in-package test (go test -overlay, /verif/replay/harness.go.txt), calls
+//     the real function and records the panic, or the state reachable from arguments and results after the call;
+//  3. pins the built arguments and the observed state as ground facts and asks the solver whether the function's
+//     preconditions are satisfiable (the input is one the contract admits) and whether a postcondition is
+//     unsatisfiable (the observed outcome is one the contract excludes).
+// Only then is the violation reported with a failing input; everything else keeps the words no-failing-input-found.
+
+type replayWitness struct {
+	Clause   string   `json:"postcondition_falsified,omitempty"`
+	Panic    string   `json:"panic,omitempty"`
+	Source   string   `json:"input_from"`
+	Args     []*vc.RV `json:"arguments"`
+	Observed *vc.ROut `json:"observed"`
+	Notes    []string `json:"notes,omitempty"`
+	Props    []string `json:"-"`
+}
+
+type funcReplay struct {
+	Status    string // text for the replay file
+	Witnesses []*replayWitness
+	Dir       string
+}
+
+var replayCache = map[string]*funcReplay{}
+var dbgN int
+
+// replayBase is where replay files go (overridden in self-tests so that they do not overwrite real reports).
+func replayBase(verif string) string {
+	if d := os.Getenv("DVC_REPLAY_DIR"); d != "" {
+		return d
+	}
+	return filepath.Join(verif, "work", "replay")
+}
+var replayStart time.Time
+
+func panicMatchesKind(kind, msg string) bool {
+	switch kind {
+	case "index":
+		return strings.Contains(msg, "index out of range")
+	case "slice":
+		return strings.Contains(msg, "slice bounds out of range")
+	case "nil":
+		return strings.Contains(msg, "nil pointer dereference") || strings.Contains(msg, "invalid memory address")
+	case "div":
+		return strings.Contains(msg, "divide by zero")
+	case "make":
+		return strings.Contains(msg, "makeslice") || strings.Contains(msg, "out of range")
+	case "typeassert":
+		return strings.Contains(msg, "interface conversion")
+	case "panic":
+		return true
+	}
 	return false
+}
+
+// replayModel tries to reproduce a violation of obligation r on the real code.
+func replayModel(verif, repo, prop string, r *vc.ObResult, rp map[string]interface{}, env *vc.Env, all []*vc.ObResult) bool {
+	if env == nil || r.Ob == nil || r.Kind == "attach" || r.Kind == "lemma" || r.Ob.Fn == "" {
+		rp["replay"] = "not attempted: the obligation is not about one function's execution"
+		return false
+	}
+	file := r.Ob.Pos.Filename
+	if file == "" {
+		// loop obligations may carry no position: take the one of another obligation of the same function
+		for _, o := range all {
+			if o.Ob != nil && o.Ob.Fn == r.Ob.Fn && o.Ob.Pos.Filename != "" {
+				file = o.Ob.Pos.Filename
+				break
+			}
+		}
+	}
+	if file == "" {
+		rp["replay"] = "not attempted: no source position"
+		return false
+	}
+	rel, err := filepath.Rel(repo, filepath.Dir(file))
+	if err != nil || strings.HasPrefix(rel, "..") {
+		rp["replay"] = "not attempted: source outside the repository"
+		return false
+	}
+	if rel == "." {
+		rel = ""
+	}
+	ck := rel + "|" + r.Ob.Fn
+	fr, ok := replayCache[ck]
+	if !ok && (len(replayCache) >= 4 || (len(replayCache) > 0 && time.Since(replayStart) > 6*time.Minute)) {
+		rp["replay"] = "not attempted: the replay budget of this run (4 functions, 6 minutes) is used up"
+		return false
+	}
+	if !ok {
+		if len(replayCache) == 0 {
+			replayStart = time.Now()
+		}
+		var mine []*vc.ObResult
+		for _, o := range all {
+			if o.Ob != nil && o.Ob.Fn == r.Ob.Fn && (o.Ob.Pos.Filename == "" || filepath.Dir(o.Ob.Pos.Filename) == filepath.Dir(file)) && !o.Ob.Cover &&
+				(o.Verdict == "failed" || o.Verdict == "undecided") {
+				mine = append(mine, o)
+			}
+		}
+		fr = replayFunction(verif, repo, prop, rel, r.Ob.Fn, env, mine)
+		replayCache[ck] = fr
+	}
+	rp["replay"] = fr.Status
+	if fr.Dir != "" {
+		rp["replay_files"] = fr.Dir
+	}
+	for _, w := range fr.Witnesses {
+		if w.Panic != "" {
+			// only a panic of the kind the obligation excludes, on the input of that obligation's own counterexample
+			if panicMatchesKind(r.Kind, w.Panic) && strings.Contains(w.Source, r.Name) {
+				rp["failing_input"] = w
+				return true
+			}
+			continue
+		}
+		// a falsified postcondition witnesses the violations of this function that carry the same property
+		if len(w.Props) == 0 || len(r.Ob.Props) == 0 || intersects(w.Props, r.Ob.Props) {
+			rp["failing_input"] = w
+			return true
+		}
+	}
+	return false
+}
+
+func intersects(a, b []string) bool {
+	for _, x := range a {
+		for _, y := range b {
+			if x == y {
+				return true
+			}
+		}
+	}
+	return false
+}
+
+func goTypeString(t types.Type, self *types.Package, imports map[string]string, bad *string) string {
+	return types.TypeString(t, func(p *types.Package) string {
+		if p == self {
+			return ""
+		}
+		imports[p.Path()] = p.Name()
+		return p.Name()
+	})
+}
+
+// unexportedForeign reports a named type of another package that the test could not spell.
+func unexportedForeign(t types.Type, self *types.Package, depth int) string {
+	if depth > 6 {
+		return ""
+	}
+	switch u := t.(type) {
+	case *types.Named:
+		if u.Obj().Pkg() != nil && u.Obj().Pkg() != self && !u.Obj().Exported() {
+			return u.String()
+		}
+		return ""
+	case *types.Pointer:
+		return unexportedForeign(u.Elem(), self, depth+1)
+	case *types.Slice:
+		return unexportedForeign(u.Elem(), self, depth+1)
+	case *types.Array:
+		return unexportedForeign(u.Elem(), self, depth+1)
+	case *types.Map:
+		if s := unexportedForeign(u.Key(), self, depth+1); s != "" {
+			return s
+		}
+		return unexportedForeign(u.Elem(), self, depth+1)
+	case *types.Chan:
+		return unexportedForeign(u.Elem(), self, depth+1)
+	}
+	return ""
+}
+
+func replayFunction(verif, repo, prop, rel, key string, env *vc.Env, viols []*vc.ObResult) *funcReplay {
+	res := &funcReplay{}
+	t0 := time.Now()
+	pkg := pkgPath(env, rel)
+	env.KeepGen = true
+	defer func() { env.KeepGen = false; env.Concrete = false }()
+	fr, err := env.GenByKey(pkg, key)
+	if err != nil || fr == nil || fr.G == nil || fr.Unsupported != "" {
+		res.Status = "not attempted: verification conditions of the function cannot be generated"
+		return res
+	}
+	g := fr.G
+	if ok, why := g.Replayable(); !ok {
+		res.Status = "not attempted: " + why
+		return res
+	}
+	fn := fr.Fn
+	self := fn.Pkg.Pkg
+	for _, p := range fn.Params {
+		if s := unexportedForeign(p.Type(), self, 0); s != "" {
+			res.Status = "not attempted: parameter type " + s + " cannot be named in a test of this package"
+			return res
+		}
+	}
+
+	// ---- 1. candidate inputs
+	type cand struct {
+		args   []*vc.RV
+		source string
+		notes  []string
+	}
+	var cands []cand
+	var log []string
+	deadline := t0.Add(90 * time.Second)
+	weak := false
+	addFrom := func(script, source string, k0 int, timeout int, extra []string) string {
+		rq := g.ReplayQuery(k0)
+		fr.RefreshPrelude()
+		body := strings.TrimSuffix(script, "(check-sat)\n")
+		if weak {
+			body = strings.TrimSuffix(vc.SearchForm(script), "(check-sat)\n")
+		}
+		// random side constraints are soft: each has an indicator, and those in an unsatisfiable core are dropped
+		on := make([]bool, len(extra))
+		for i := range on {
+			on[i] = true
+		}
+		v, out := "", ""
+		for round := 0; round < 12; round++ {
+			var ind strings.Builder
+			var names []string
+			for i, e := range extra {
+				if on[i] {
+					fmt.Fprintf(&ind, "(declare-const dv!%d Bool)\n(assert (=> dv!%d %s))\n", i, i, e)
+					names = append(names, fmt.Sprintf("dv!%d", i))
+				}
+			}
+			full := body + rq.Bounds + ind.String() + rq.Defs
+			if len(names) > 0 {
+				full = "(set-option :produce-unsat-cores true)\n" + full + "(check-sat-assuming (" + strings.Join(names, " ") + "))\n"
+			} else {
+				full += "(check-sat)\n"
+			}
+			v, out = vc.RunQuery("z3-new", full+rq.Get, timeout)
+			if d := os.Getenv("DVC_REPLAY_DEBUG"); d != "" {
+				dbgN++
+				os.WriteFile(filepath.Join(d, fmt.Sprintf("q%03d_%s.smt2", dbgN, v)), []byte("; "+source+"\n"+full+rq.Get), 0o644)
+			}
+			if v != "unsat" || len(names) == 0 {
+				break
+			}
+			_, cout := vc.RunQuery("z3-new", full+"(get-unsat-core)\n", timeout)
+			core := vc.CoreNames(strings.SplitN(cout, "\n", 2)[len(strings.SplitN(cout, "\n", 2))-1])
+			dropped := 0
+			for _, c := range core {
+				var k int
+				if _, err := fmt.Sscanf(c, "dv!%d", &k); err == nil && k < len(on) && on[k] {
+					on[k] = false
+					dropped++
+				}
+			}
+			if dropped == 0 {
+				// no usable core: drop half of the remaining constraints
+				for i := range on {
+					if on[i] && i%2 == round%2 {
+						on[i] = false
+					}
+				}
+			}
+		}
+		if v == "sat" {
+			args, notes, err := g.ReplayInput(rq, out)
+			if err != nil {
+				log = append(log, source+": "+err.Error())
+				return "error"
+			}
+			cands = append(cands, cand{args, source, notes})
+		}
+		return v
+	}
+	obByName := map[string]*vc.Obligation{}
+	var cover *vc.Obligation
+	for _, ob := range fr.Obls {
+		obByName[ob.Name] = ob
+		if ob.Cover && ob.Label == "requires-satisfiable" {
+			cover = ob
+		}
+	}
+	// (a) the solver's counterexamples, refuted obligations first; an obligation the solver could not decide in
+	// general is tried again with most of the entry state fixed to random values (a ground instance is decided fast)
+	h := 0
+	for _, c := range key {
+		h = h*31 + int(c)
+	}
+	rnd := rand.New(rand.NewSource(int64(h)))
+	sort.SliceStable(viols, func(i, j int) bool { return viols[i].Verdict == "failed" && viols[j].Verdict != "failed" })
+	n := 0
+	for _, v := range viols {
+		ob := obByName[v.Name]
+		if ob == nil || n >= 4 || time.Now().After(deadline) {
+			continue
+		}
+		n++
+		to := 20
+		if v.Verdict != "failed" {
+			to = 6
+		}
+		got := false
+		for _, k0 := range []int{12, 48} {
+			rq := g.ReplayQuery(k0)
+			fr.RefreshPrelude()
+			script := vc.BuildQuery(fr, ob)
+			r := addFrom(script, "counterexample of "+v.Name, k0, to, nil)
+			if r == "unsat" {
+				log = append(log, fmt.Sprintf("%s: no counterexample with slices of length <= %d", v.Name, k0))
+				continue
+			}
+			if r == "sat" {
+				got = true
+			}
+			if r != "sat" && r != "error" {
+				log = append(log, v.Name+": the solver gave no model within the time limit")
+				hits := 0
+				weak = true
+				for try := 0; try < 16 && hits < 3 && !time.Now().After(deadline); try++ {
+					frac := []float64{0.9, 0.7, 0.5, 0.8}[try%4]
+					if addFrom(script, "counterexample of "+v.Name+" (entry state partly fixed at random)", k0, 4, rq.Diversify(rnd, frac)) == "sat" {
+						hits++
+						got = true
+					}
+				}
+			}
+			break
+		}
+		weak = false
+		_ = got
+	}
+	// (b) inputs that merely satisfy the precondition, spread by random side constraints
+	if cover != nil && len(cands) < 3 {
+		rq := g.ReplayQuery(12)
+		fr.RefreshPrelude()
+		script := vc.BuildQuery(fr, cover)
+		got := 0
+		weak = true
+		addFrom(script, "an input satisfying the precondition", 12, 6, nil)
+		for try := 0; try < 30 && got < 8 && !time.Now().After(deadline); try++ {
+			frac := []float64{0.7, 0.4, 0.2}[try%3]
+			if addFrom(script, "an input satisfying the precondition (spread by random side constraints)", 12, 4, rq.Diversify(rnd, frac)) == "sat" {
+				got++
+			}
+		}
+	}
+	// drop duplicates
+	{
+		seen := map[string]bool{}
+		var uniq []cand
+		for _, c := range cands {
+			b, _ := json.Marshal(c.args)
+			if !seen[string(b)] {
+				seen[string(b)] = true
+				uniq = append(uniq, c)
+			}
+		}
+		cands = uniq
+	}
+	if len(cands) == 0 {
+		res.Status = "no input could be derived: " + strings.Join(log, "; ")
+		return res
+	}
+
+	// ---- 2. run the real function
+	dir := filepath.Join(replayBase(verif), prop, sanitize(key)+".replay")
+	os.RemoveAll(dir)
+	os.MkdirAll(dir, 0o755)
+	res.Dir = dir
+	var inputs [][]*vc.RV
+	for _, c := range cands {
+		inputs = append(inputs, c.args)
+	}
+	ib, _ := json.MarshalIndent(inputs, "", " ")
+	inPath := filepath.Join(dir, "inputs.json")
+	outPath := filepath.Join(dir, "observed.json")
+	os.WriteFile(inPath, ib, 0o644)
+	hb, err := os.ReadFile(filepath.Join(verif, "replay", "harness.go.txt"))
+	if err != nil {
+		res.Status = "harness missing: " + err.Error()
+		return res
+	}
+	harness := strings.Replace(string(hb), "package PKGNAME", "package "+self.Name(), 1)
+	imports := map[string]string{}
+	var bad string
+	var sb strings.Builder
+	sb.WriteString("func TestVerifReplay(t *testing.T) {\n\tvrRun(t, func(in []*vrV, h *vrH) {\n")
+	var argNames, argPtrs []string
+	for i, p := range fn.Params {
+		fmt.Fprintf(&sb, "\t\tvar a%d %s\n\t\th.build(reflect.ValueOf(&a%d).Elem(), in[%d])\n", i, goTypeString(p.Type(), self, imports, &bad), i, i)
+		argNames = append(argNames, fmt.Sprintf("a%d", i))
+		argPtrs = append(argPtrs, fmt.Sprintf("&a%d", i))
+	}
+	call := ""
+	if fn.Signature.Recv() != nil {
+		call = fmt.Sprintf("a0.%s(%s)", fn.Name(), strings.Join(argNames[1:], ", "))
+	} else {
+		call = fmt.Sprintf("%s(%s)", fn.Name(), strings.Join(argNames, ", "))
+	}
+	nres := fn.Signature.Results().Len()
+	var rn, rp []string
+	for i := 0; i < nres; i++ {
+		rn = append(rn, fmt.Sprintf("r%d", i))
+		rp = append(rp, fmt.Sprintf("&r%d", i))
+	}
+	sb.WriteString("\t\th.call(func() {\n")
+	if nres > 0 {
+		fmt.Fprintf(&sb, "\t\t\t%s := %s\n\t\t\th.results(%s)\n", strings.Join(rn, ", "), call, strings.Join(rp, ", "))
+	} else {
+		fmt.Fprintf(&sb, "\t\t\t%s\n", call)
+	}
+	sb.WriteString("\t\t})\n")
+	fmt.Fprintf(&sb, "\t\th.args(%s)\n\t})\n}\n", strings.Join(argPtrs, ", "))
+	var imp []string
+	for p := range imports {
+		imp = append(imp, p)
+	}
+	sort.Strings(imp)
+	stub := "package " + self.Name() + "\n\nimport (\n\t\"reflect\"\n\t\"testing\"\n"
+	for _, p := range imp {
+		stub += fmt.Sprintf("\t%s %q\n", imports[p], p)
+	}
+	stub += ")\n\n" + sb.String()
+	os.WriteFile(filepath.Join(dir, "zz_verif_replay_harness_test.go"), []byte(harness), 0o644)
+	os.WriteFile(filepath.Join(dir, "zz_verif_replay_call_test.go"), []byte(stub), 0o644)
+	// overlay: the two generated files in, every other test file of the package out (no TestMain, no servers)
+	repl := map[string]string{
+		filepath.Join(repo, rel, "zz_verif_replay_harness_test.go"): filepath.Join(dir, "zz_verif_replay_harness_test.go"),
+		filepath.Join(repo, rel, "zz_verif_replay_call_test.go"):    filepath.Join(dir, "zz_verif_replay_call_test.go"),
+	}
+	others, _ := filepath.Glob(filepath.Join(repo, rel, "*_test.go"))
+	for _, o := range others {
+		repl[o] = ""
+	}
+	ov, _ := json.MarshalIndent(map[string]interface{}{"Replace": repl}, "", " ")
+	ovPath := filepath.Join(dir, "overlay.json")
+	os.WriteFile(ovPath, ov, 0o644)
+	gopkg := "./" + rel
+	if rel == "" {
+		gopkg = "."
+	}
+	ctx, cancel := context.WithTimeout(context.Background(), 400*time.Second)
+	defer cancel()
+	cmd := exec.CommandContext(ctx, "go", "test", "-overlay="+ovPath, "-vet=off", "-count=1", "-timeout=300s", "-run", "^TestVerifReplay$", gopkg)
+	cmd.Dir = repo
+	cmd.Env = append(os.Environ(), "GOFLAGS=-mod=mod", "GOPROXY=off", "GOSUMDB=off", "GOTOOLCHAIN=local", "DVC_REPLAY_IN="+inPath, "DVC_REPLAY_OUT="+outPath)
+	out, rerr := cmd.CombinedOutput()
+	os.WriteFile(filepath.Join(dir, "run.sh"), []byte(fmt.Sprintf("#!/bin/sh\n# re-runs the real function on the inputs of inputs.json; what it observes is written to observed.json\ncd %s && GOFLAGS=-mod=mod GOPROXY=off GOSUMDB=off GOTOOLCHAIN=local DVC_REPLAY_IN=%s DVC_REPLAY_OUT=%s go test -overlay=%s -vet=off -count=1 -timeout=300s -run '^TestVerifReplay$' %s\n", repo, inPath, outPath, ovPath, gopkg)), 0o755)
+	ob, err := os.ReadFile(outPath)
+	if err != nil {
+		s := string(out)
+		if len(s) > 3000 {
+			s = s[len(s)-3000:]
+		}
+		res.Status = fmt.Sprintf("the generated test did not run (%v): %s", rerr, s)
+		return res
+	}
+	var outs []*vc.ROut
+	if err := json.Unmarshal(ob, &outs); err != nil || len(outs) != len(cands) {
+		res.Status = "unreadable harness output"
+		return res
+	}
+
+	// ---- 3. evaluate the contract on what was observed
+	env.Concrete = true
+	frC, err := env.GenByKey(pkg, key)
+	env.Concrete = false
+	if err != nil || frC == nil || frC.G == nil || frC.Unsupported != "" {
+		res.Status = "the contract could not be evaluated on the observed state"
+		if err != nil {
+			res.Status += ": " + err.Error()
+		}
+		return res
+	}
+	gC := frC.G
+	var coverC *vc.Obligation
+	var ens []*vc.Obligation
+	for _, o := range frC.Obls {
+		if o.Cover && o.Label == "requires-satisfiable" {
+			coverC = o
+		}
+		if o.Kind == "ensures" {
+			ens = append(ens, o)
+		}
+	}
+	var summary []string
+	judgeDeadline := time.Now().Add(120 * time.Second)
+	for i, c := range cands {
+		o := outs[i]
+		if time.Now().After(judgeDeadline) || len(res.Witnesses) >= 2 {
+			break
+		}
+		tag := fmt.Sprintf("input %d (%s)", i+1, c.source)
+		if o.Error != "" {
+			summary = append(summary, tag+": "+o.Error)
+			continue
+		}
+		if o.Timeout {
+			summary = append(summary, tag+": the call did not return within 10 s (blocked on something the harness cannot provide)")
+			continue
+		}
+		pre := gC.PinPre(c.args)
+		frC.RefreshPrelude()
+		if globals := gC.ReadsGlobals(); len(globals) > 0 {
+			summary = append(summary, tag+": the contract reads package-level variables the replay does not pin ("+strings.Join(globals, ", ")+")")
+			continue
+		}
+		if coverC == nil {
+			summary = append(summary, tag+": no precondition check available")
+			continue
+		}
+		preQ := vc.ConcreteQuery(frC, coverC, pre, false)
+		if d := os.Getenv("DVC_REPLAY_DEBUG"); d != "" {
+			os.WriteFile(filepath.Join(d, fmt.Sprintf("pre_%d.smt2", i+1)), []byte(preQ), 0o644)
+		}
+		if v, _ := vc.RunQuery("z3-new", preQ, 15); v != "sat" {
+			summary = append(summary, tag+": the arguments that could be built do not satisfy the precondition ("+v+")")
+			continue
+		}
+		if o.Panic != "" {
+			res.Witnesses = append(res.Witnesses, &replayWitness{Panic: o.Panic, Source: c.source, Args: c.args, Observed: o, Notes: c.notes})
+			summary = append(summary, tag+": the real function panics on an input that satisfies the precondition: "+o.Panic)
+			continue
+		}
+		post := gC.PinPost(o)
+		frC.RefreshPrelude()
+		pins := append(append([]string{}, pre...), post...)
+		found := false
+		for _, e := range ens {
+			if time.Now().After(judgeDeadline) {
+				break
+			}
+			// unsatisfiable together with the observed state?  (checked first: it is the rare answer)
+			if v, _ := vc.RunQuery("z3-new", vc.ConcreteQuery(frC, e, pins, true), 5); v != "unsat" {
+				continue
+			}
+			// ... and not merely because the observation contradicts the heap model or the precondition
+			if v, _ := vc.RunQuery("z3-new", vc.ConcreteQuery(frC, e, pins, false), 20); v != "sat" {
+				continue
+			}
+			res.Witnesses = append(res.Witnesses, &replayWitness{Clause: e.Name + ": " + e.Src, Source: c.source, Args: c.args, Observed: o, Notes: c.notes, Props: e.Props})
+			summary = append(summary, fmt.Sprintf("%s: the real function returns a state that falsifies %s", tag, e.Name))
+			os.WriteFile(filepath.Join(dir, fmt.Sprintf("falsified_%d_%s.smt2", i+1, sanitize(e.Label))), []byte(vc.ConcreteQuery(frC, e, pins, true)), 0o644)
+			found = true
+			break
+		}
+		if !found {
+			summary = append(summary, tag+": the real function's outcome satisfies (or does not decide) every postcondition")
+		}
+	}
+	res.Status = fmt.Sprintf("%d candidate input(s) run on the real code in %.0f s: %s", len(cands), time.Since(t0).Seconds(), strings.Join(append(summary, log...), "; "))
+	return res
 }
 
 func cmdReplay(args []string) int {
@@ -28,6 +586,18 @@ func cmdReplay(args []string) int {
 		return 2
 	}
 	fmt.Println(string(b))
+	var rp map[string]interface{}
+	if json.Unmarshal(b, &rp) == nil {
+		if d, ok := rp["replay_files"].(string); ok {
+			if _, err := os.Stat(filepath.Join(d, "run.sh")); err == nil {
+				fmt.Println("re-running the real function on the recorded inputs:", filepath.Join(d, "run.sh"))
+				out, _ := exec.Command("/bin/sh", filepath.Join(d, "run.sh")).CombinedOutput()
+				fmt.Println(string(out))
+				ob, _ := os.ReadFile(filepath.Join(d, "observed.json"))
+				fmt.Println("observed:", string(ob))
+			}
+		}
+	}
 	// Re-run the saved verification condition, if it was kept next to the replay file: the same solver query
 	// that failed, so that the verdict (and the solver's model, when it gives one) can be reproduced.
 	smt := strings.TrimSuffix(args[0], ".json") + ".smt2"
